@@ -423,3 +423,10 @@ def clade_support(weighted_specs):
         for c in spec_clades(sp):
             sup[c] = sup.get(c, 0.0) + w
     return sup
+
+
+def tuplify(x):
+    """JSON round trip turns tuples into lists: restore nested tuples (specs, variants)."""
+    if isinstance(x, list):
+        return tuple(tuplify(v) for v in x)
+    return x
